@@ -1,6 +1,7 @@
 """C02 — error recovery is total (DESIGN §2 C02)."""
 import signal
 import sys
+import time
 
 from hypothesis import strategies as st
 
@@ -9,6 +10,7 @@ from ..engine import Outcome, Prop
 from ..gen import text as T
 
 WATCHDOG_S = 20
+SLOW_S = 15
 LINE_BUDGET = 10 ** 7
 
 
@@ -104,6 +106,25 @@ class C02(Prop):
     assumptions = ['nesting depth of every generated text is <= 100 by construction (builders count each opener by the number '
                    'of grammar constructs it opens)']
     budgets = {'quick': 24000, 'thorough': 640000}
+    hang_timeout = 40          # seconds without progress of a worker before the parent inspects its current case
+
+    def confirm_hang(self, case):
+        """A worker stopped making progress on ``case`` (no Python-level events: e.g. a backtracking regex in C).
+        Confirm in isolation: two fresh subprocesses, 60 s each, for an input that normally parses in milliseconds."""
+        import json
+        import subprocess
+        from ..common import REPO
+        prog = ('import sys, json; sys.path.insert(0, %r); import parso; c = json.load(sys.stdin); '
+                'parso.load_grammar(version=c["version"]).parse(c["code"]); print("done")' % REPO)
+        for _ in range(2):
+            try:
+                r = subprocess.run([sys.executable, '-c', prog], input=json.dumps(case).encode(), capture_output=True, timeout=60)
+                if b'done' in r.stdout or r.returncode != 0:
+                    return None          # finished in time (or crashed: the in-process check reports crashes itself)
+            except subprocess.TimeoutExpired:
+                continue
+        return ('does-not-terminate', 'parse did not finish within 60 s in two isolated runs (%d chars): %s'
+                % (len(case['code']), short(case['code'], 200)))
 
     def strategy(self, tier):
         kinds = ('repo',) if tier == 'quick' else ('repo', 'stdlib3.12')
@@ -115,7 +136,12 @@ class C02(Prop):
     def check(self, case):
         code, v = case['code'], case['version']
         g = grammar(v)
+        t0 = time.time()
         m, fail = parse_guarded(g, code)
+        if time.time() - t0 > SLOW_S and fail is None:
+            # inputs of this size parse in milliseconds; this is a *candidate* that the engine confirms in isolation
+            return Outcome(fail=('does-not-terminate', 'parse took %.0f s in the worker (candidate, %d chars)' % (time.time() - t0, len(code))),
+                           nontrivial=True, key=digest(code, v), classes=['slow'])
         if m is None:
             return Outcome(fail=fail, nontrivial=True, key=digest(code, v), classes=['failed'])
         fail = shape_error(m)
